@@ -10,6 +10,7 @@ import (
 
 	"github.com/regclient/regclient"
 	"github.com/regclient/regclient/types"
+	"github.com/regclient/regclient/types/descriptor"
 	"github.com/regclient/regclient/types/docker/schema2"
 	"github.com/regclient/regclient/types/errs"
 	"github.com/regclient/regclient/types/manifest"
@@ -307,8 +308,9 @@ func WithManifestDigestAlgo(algo digest.Algorithm) Opts {
 			if origDig.Validate() == nil && origDig.Algorithm() == algo {
 				return nil
 			}
-			desc := dm.m.GetDescriptor()
-			desc.Digest = ""
+			// only the media type carries over: size, inline data and the annotations of the entry the manifest was
+			// found through (e.g. the tag of an OCI layout) describe the old manifest
+			desc := descriptor.Descriptor{MediaType: dm.m.GetDescriptor().MediaType}
 			err := desc.DigestAlgoPrefer(algo)
 			if err != nil {
 				return err
